@@ -802,6 +802,10 @@ impl DcpsDomainParticipant {
     pub fn process_discovered_readers(&mut self, runtime: &impl DdsRuntime) {
         for publisher in &mut self.domain_participant.user_defined_publisher_list {
             for data_writer in &mut publisher.data_writer_list {
+                // A writer that is not enabled is not announced: no reader can be matched with it yet
+                if !data_writer.enabled {
+                    continue;
+                }
                 let writer_topic_name = data_writer.topic_name.clone();
                 for discovered_reader_data in self
                     .domain_participant
@@ -1365,6 +1369,10 @@ impl DcpsDomainParticipant {
             let subscriber_listener_mask = subscriber.listener_mask;
             let subscriber_listener_sender = subscriber.listener_sender.clone();
             for data_reader in &mut subscriber.data_reader_list {
+                // A reader that is not enabled is not announced: no writer can be matched with it yet
+                if !data_reader.enabled {
+                    continue;
+                }
                 let reader_topic_name = if let Some(matched_topic) = self
                     .domain_participant
                     .content_filtered_topic_list
